@@ -791,6 +791,44 @@ def check_C18(ctx):
                 ctx.violation('len(u) wrong after a collection re-used node numbers', dict(
                     tags=dict(call='Function.len-history')))
             del f2
+        # the SAME Function objects traversed, the order changed (swaps / sifting / a given
+        # order), traversed again: each must still expand to its function in the new order
+        keep = []
+        for _ in range(12):
+            t = rng.randrange(sp.full + 1)
+            f = bdd.false
+            for a in range(sp.size):
+                if (t >> a) & 1:
+                    c = bdd.true
+                    for i, n in enumerate(sp.names):
+                        c = c & (vs[n] if (a >> i) & 1 else ~vs[n])
+                    f = f | c
+            keep.append((f, t))
+        for f, t in keep:
+            _expand(f, sp)
+        for rnd in range(4):
+            how = rng.randrange(3)
+            if how == 0:
+                lv = rng.randrange(len(ABC) - 1)
+                bdd._bdd.swap(lv, lv + 1)
+            elif how == 1:
+                _auto.reorder(bdd)
+            else:
+                perm = list(ABC)
+                rng.shuffle(perm)
+                _auto.reorder(bdd, {v: i for i, v in enumerate(perm)})
+            for f, t in keep:
+                ctx.evaluations += 1
+                if _expand(f, sp) != t or _expand(~f, sp) != sp.neg(t):
+                    ctx.violation('a Function traversed before a reordering expands to another '
+                                  'function after it', dict(tt=t, order=order, how=how,
+                                                            tags=dict(call='Function.expand-reorder')))
+                    break
+                if len(f) != len(reachable(bdd._bdd, [f.node])):
+                    ctx.violation('len(u) wrong after a reordering', dict(
+                        tt=t, tags=dict(call='Function.len-reorder')))
+                    break
+        del keep
         ctx.case(('function-interface', order))
         del vs, f, g, c
         try:
